@@ -24,6 +24,7 @@ template<class G> void use_ordered(G& g, const G& cg, const vf::payload& p, vf::
     g.modify(f1); (void)g.modify(f2); cg.read(f3); (void)cg.read(f4);
     { auto s = cg.lock_shared(); auto s2 = cg.try_lock_shared(); }
     (void)cg.load(); g.store(p); g.store(std::move(q)); g = p; g = std::move(q);
+    { vf::payload viaConversion = cg; }
 }
 template<class G> void use_ordered_timed(const G& cg){
     { auto h = cg.try_lock_shared_for(std::chrono::milliseconds(1)); }
